@@ -244,4 +244,9 @@ def ahabCheck (c : CryptoOps) (p : Params) (bin : Bytes) (deks : List (Option By
     let regions := rs.map (fun r => (r.base, r.length)) ++ rs.flatMap (fun r => r.images.map (fun i => (i.offset, i.size)))
     if pairwiseDisjoint regions then .ok rs else .error "images / containers overlap"
 
+/-- the signature obligation `ahabCheck` leaves to the discharger for a signed container: the signature bytes verify under
+    the public key of the selected SRK over exactly the signed range `bin[base : base + signedLen]` -/
+def sigObligation (c : CryptoOps) (alg : Crypto.SigAlg) (pk : Crypto.PubKey) (bin : Bytes) (base : Nat) (s : SigRep) : Bool :=
+  c.verify alg pk (slice bin base s.signedLen) (slice bin s.sigOff s.sigLen)
+
 end SpsdkVerif.Spec.AhabRom
